@@ -1354,6 +1354,82 @@ def _cm_class_to_generator(tree, cls, shape, ref, funcs):
     return True
 
 
+# ---------------------------------------------------------------------------------------------- pass: record results -> tuple unpacking
+def _namedtuple_fields(tree):
+    out = {}
+    for c in tree.body:
+        if isinstance(c, ast.ClassDef) and any((isinstance(b, ast.Name) and b.id == "NamedTuple") or
+                                                (isinstance(b, ast.Attribute) and b.attr == "NamedTuple") for b in c.bases):
+            fs = [st.target.id for st in c.body if isinstance(st, ast.AnnAssign) and isinstance(st.target, ast.Name)]
+            if fs and not any(isinstance(st, _FUNC_NODES) for st in c.body):
+                out[c.name] = fs
+    return out
+
+
+def destructure_record_results(tree):
+    """`r = f(...)` where f always returns NamedTuple K(...) and r is only used as r.field / r[i]
+    ->  `r__a, r__b, ... = f(...)`.  Also `r = K(...)` itself."""
+    nts = _namedtuple_fields(tree)
+    if not nts:
+        return 0
+    returns_k = dict((k, k) for k in nts)
+    for f in tree.body:
+        if isinstance(f, ast.FunctionDef):
+            rets = [n for n in iter_own(list(f.body)) if isinstance(n, ast.Return)]
+            ks = {n.value.func.id for n in rets if n.value is not None and isinstance(n.value, ast.Call) and isinstance(n.value.func, ast.Name)
+                  and n.value.func.id in nts}
+            if rets and len(ks) == 1 and all(n.value is not None and isinstance(n.value, ast.Call) and isinstance(n.value.func, ast.Name)
+                                             and n.value.func.id in ks for n in rets):
+                returns_k[f.name] = next(iter(ks))
+    changed = 0
+    for f in [x for x in ast.walk(tree) if isinstance(x, _FUNC_NODES)]:
+        for st in [x for x in iter_own(list(f.body)) if isinstance(x, ast.Assign)]:
+            if not (len(st.targets) == 1 and isinstance(st.targets[0], ast.Name) and isinstance(st.value, ast.Call)
+                    and isinstance(st.value.func, ast.Name) and st.value.func.id in returns_k):
+                continue
+            if st.value.func.id in bound_names(f):
+                continue
+            var = st.targets[0].id
+            fields = nts[returns_k[st.value.func.id]]
+            if _assign_count(f, var) != 1 or var in params_of(f):
+                continue
+            if any(isinstance(sc, _SCOPE_NODES) and var in bound_names(sc) for sc in ast.walk(f) if sc is not f):
+                continue
+            parents = {}
+            for pn in ast.walk(f):
+                for c in ast.iter_child_nodes(pn):
+                    parents[id(c)] = pn
+            uses = [n for n in ast.walk(f) if isinstance(n, ast.Name) and n.id == var and n is not st.targets[0]]
+            repl, ok = {}, bool(uses)
+            for u in uses:
+                pn = parents.get(id(u))
+                if isinstance(pn, ast.Attribute) and pn.value is u and pn.attr in fields and isinstance(pn.ctx, ast.Load):
+                    repl[id(pn)] = f"{var}__{pn.attr}"
+                elif isinstance(pn, ast.Subscript) and pn.value is u and isinstance(pn.slice, ast.Constant) and isinstance(pn.slice.value, int) \
+                        and 0 <= pn.slice.value < len(fields) and isinstance(pn.ctx, ast.Load):
+                    repl[id(pn)] = f"{var}__{fields[pn.slice.value]}"
+                else:
+                    ok = False
+            taken = {n.id for n in ast.walk(f) if isinstance(n, ast.Name)}
+            if not ok or any(f"{var}__{x}" in taken for x in fields):
+                continue
+            st.targets = [ast.copy_location(ast.Tuple(elts=[ast.Name(id=f"{var}__{x}", ctx=ast.Store()) for x in fields], ctx=ast.Store()), st.targets[0])]
+
+            class R(ast.NodeTransformer):
+                def visit_Attribute(self, n):
+                    if id(n) in repl:
+                        return ast.copy_location(ast.Name(id=repl[id(n)], ctx=ast.Load()), n)
+                    return self.generic_visit(n)
+
+                def visit_Subscript(self, n):
+                    if id(n) in repl:
+                        return ast.copy_location(ast.Name(id=repl[id(n)], ctx=ast.Load()), n)
+                    return self.generic_visit(n)
+            R().visit(f)
+            changed += 1
+    return changed
+
+
 # ---------------------------------------------------------------------------------------------- pass: alias elimination
 def _assign_count(f, name):
     """Number of binding occurrences of `name` as a variable of function f (own scope + nonlocal writes below)."""
@@ -1373,45 +1449,77 @@ def _assign_count(f, name):
     return n
 
 
+def _top_index(f, node):
+    """Index of the top-level statement of f.body that contains `node` (or is it)."""
+    for i, top in enumerate(f.body):
+        if top is node or any(x is node for x in ast.walk(top)):
+            return i
+    return None
+
+
+def _stable_before(scope, name, idx):
+    """Every binding of `name` in function `scope` is a top-level, non-loop statement before index idx, and no nested
+    function rebinds it."""
+    if any(name in declared(g, ast.Nonlocal) for g in ast.walk(scope) if isinstance(g, _FUNC_NODES) and g is not scope):
+        return False
+    for i, top in enumerate(scope.body):
+        binds = any((isinstance(x, ast.Name) and x.id == name and isinstance(x.ctx, (ast.Store, ast.Del)))
+                    or (isinstance(x, _FUNC_NODES + (ast.ClassDef,)) and x.name == name)
+                    or (isinstance(x, ast.ExceptHandler) and x.name == name) for x in iter_own([top]))
+        if binds and (i >= idx or isinstance(top, (ast.For, ast.While, ast.AsyncFor))):
+            return False
+    return True
+
+
 def eliminate_aliases(tree):
-    """`a = b` where both are assigned exactly once in the function (b possibly a never-reassigned parameter):
-    every use of a becomes b.  Only introduced aliases matter in practice (state__queue = queue)."""
+    """`a = b` where `a` is a name introduced by the passes above (assigned once) and `b` is a variable of the same or
+    an enclosing function that is not rebound after the alias is made: every use of a becomes b."""
     changed = 0
+    enclosing = {}
     for f in [x for x in ast.walk(tree) if isinstance(x, _FUNC_NODES)]:
+        for g in [y for y in ast.walk(f) if isinstance(y, _FUNC_NODES) and y is not f]:
+            enclosing.setdefault(id(g), []).append(f)  # outer functions are met first by ast.walk
+    for g in [x for x in ast.walk(tree) if isinstance(x, _FUNC_NODES)]:
         again = True
         while again:
             again = False
-            for st in list(f.body):
-                if not (isinstance(st, ast.Assign) and len(st.targets) == 1 and isinstance(st.targets[0], ast.Name)
-                        and isinstance(st.value, ast.Name)):
+            for st in [x for x in iter_own(list(g.body)) if isinstance(x, ast.Assign)]:
+                if not (len(st.targets) == 1 and isinstance(st.targets[0], ast.Name) and isinstance(st.value, ast.Name)):
                     continue
                 a, b = st.targets[0].id, st.value.id
-                if a == b or "__" not in a:
-                    continue  # only names introduced by the passes above (they contain a double underscore)
-                if _assign_count(f, a) != 1 or a in params_of(f):
+                if a == b or ("__" not in a and "__" not in b) or _assign_count(g, a) != 1 or a in params_of(g):
                     continue
-                if b not in bound_names(f):
-                    continue
-                # every (re)binding of b happens in a top-level statement before the alias is made, none below
-                idx = f.body.index(st)
-                later = sum(1 for x in iter_own(list(f.body[idx:])) if isinstance(x, ast.Name) and x.id == b
-                            and isinstance(x.ctx, (ast.Store, ast.Del)))
-                inner = any(b in declared(g, ast.Nonlocal) for g in ast.walk(f) if isinstance(g, _FUNC_NODES) and g is not f)
-                in_loop = any(isinstance(x, ast.Name) and x.id == b and isinstance(x.ctx, (ast.Store, ast.Del))
-                              for top in f.body[:idx] if isinstance(top, (ast.For, ast.While)) for x in iter_own([top])) and False
-                if later or inner or in_loop:
-                    continue
-                # b must be bound before this statement and not shadowed where a is used
+                chain = [g] + list(reversed(enclosing.get(id(g), [])))  # innermost first
+                owner = next((sc for sc in chain if b in bound_names(sc)), None)
+                if owner is None:
+                    continue  # a global: could be rebound elsewhere
+                if owner is g:
+                    idx = _top_index(g, st)
+                    if isinstance(g.body[idx], (ast.For, ast.While)) and g.body[idx] is not st:
+                        pass
+                    if not _stable_before(g, b, idx):
+                        continue
+                else:
+                    inner = chain[chain.index(owner) - 1]
+                    idx = _top_index(owner, inner)
+                    if idx is None or owner.body[idx] is not inner or not _stable_before(owner, b, idx):
+                        continue
                 bad = False
-                for sc in [y for y in ast.walk(f) if isinstance(y, _SCOPE_NODES) and y is not f]:
+                for sc in [y for y in ast.walk(g) if isinstance(y, _SCOPE_NODES) and y is not g]:
                     bn = bound_names(sc)
-                    if a in bn:
+                    if a in bn or (b in bn and any(isinstance(n, ast.Name) and n.id == a for n in ast.walk(sc))):
                         bad = True
-                    if b in bn and any(isinstance(n, ast.Name) and n.id == a for n in ast.walk(sc)):
+                for sc in chain[:chain.index(owner)]:
+                    if sc is not g and b in bound_names(sc):
                         bad = True
                 if bad:
                     continue
-                f.body.remove(st)
+                for _o, _f, lst in stmt_lists(g):
+                    if any(x is st for x in lst):
+                        lst.remove(st)
+                        if not lst:
+                            lst.append(_loc(ast.Pass(), st))
+                        break
 
                 class R(ast.NodeTransformer):
                     def visit_Name(self, n):
@@ -1422,8 +1530,8 @@ def eliminate_aliases(tree):
                     def visit_Nonlocal(self, n):
                         n.names = [x for x in n.names if x != a]
                         return n if n.names else None
-                for i, x in enumerate(f.body):
-                    f.body[i] = R().visit(x)
+                for i, x in enumerate(g.body):
+                    g.body[i] = R().visit(x)
                 changed += 1
                 again = True
                 break
@@ -1490,12 +1598,13 @@ def canonicalise(trees, level, known_funcs=None):
             if n_mod:
                 n_inl += inline_closures(tree, counter)
                 n_st += scalarise_state_objects(tree)
-        n_alias = eliminate_aliases(tree) if (n_inl or n_st or n_obj or n_mod) else 0
+        n_rec = destructure_record_results(tree)
+        n_alias = eliminate_aliases(tree) if (n_inl or n_st or n_obj or n_mod or n_rec) else 0
         drop_redundant_pass(tree)
-        if mt.changed or n_acq or n_inl or n_st or n_mod or n_obj:
+        if mt.changed or n_acq or n_inl or n_st or n_mod or n_obj or n_rec:
             ast.fix_missing_locations(tree)
             log.append({"module": name, "match_to_if": mt.changed, "acquire_to_with": n_acq, "closures_inlined": n_inl,
-                        "state_objects": n_st, "module_helpers_inlined": n_mod, "objects_to_closures": n_obj})
+                        "state_objects": n_st, "module_helpers_inlined": n_mod, "objects_to_closures": n_obj, "record_results_unpacked": n_rec})
     return log
 
 
